@@ -43,6 +43,8 @@ def watch(funcs):
         mon.register_callback(TOOL, mon.events.LINE, on_line)
         _state['on'] = True
     for label, fn in funcs:
+        if fn is None:
+            continue
         fn = getattr(fn, '__wrapped__', fn)
         code = getattr(fn, '__code__', None)
         if code is None:
@@ -91,8 +93,10 @@ def merge(results):
     for r in results:
         for label, d in r.items():
             o = out.setdefault(label, {'lines': d['lines'], 'hit_src': set(),
-                                       'missed': None})
+                                       'missed': None, 'all': set()})
             o['hit_src'].update(d['hit_src'])
+            o['all'].update(d['hit_src'])
+            o['all'].update(d['missed'])
             ms = set(d['missed'])
             o['missed'] = ms if o['missed'] is None else (o['missed'] & ms)
     fin = {}
@@ -102,7 +106,38 @@ def merge(results):
                       'hit': o['lines'] - len(missed),
                       'never_reached': missed}
         fin[label]['_hit_src'] = sorted(o['hit_src'])
+        fin[label]['_all_src'] = sorted(o['all'])
     return fin
+
+
+def requirement(merged, label, text):
+    """'hit' | 'missed' | 'absent'.  'absent' = the anchored function is not
+    there any more or no longer contains such a line (the requirement is
+    waived: it described one implementation, not the property)."""
+    d = merged.get(label)
+    if not d:
+        return 'absent'
+    if any(text in s for s in d['_hit_src']):
+        return 'hit'
+    if any(text in s for s in d.get('_all_src', [])):
+        return 'missed'
+    return 'absent'
+
+
+def reach_sigs(merged, must_sig):
+    """Resolve the 'reach:<label>:<text>' entries of must_sig."""
+    add = {}
+    waived = []
+    for need in must_sig:
+        if need.startswith('reach:'):
+            _, label, text = need.split(':', 2)
+            r = requirement(merged, label, text)
+            if r == 'hit':
+                add[need] = 1
+            elif r == 'absent':
+                add[need] = 1
+                waived.append(need)
+    return add, waived
 
 
 def reached(merged, label, text):
